@@ -4,6 +4,7 @@ import (
 	"encoding/json"
 	"fmt"
 	"sort"
+	"sync"
 	"time"
 
 	"github.com/nautilus/gateway"
@@ -27,12 +28,13 @@ func (c13) Cases(tier string) int {
 }
 
 func (c13) Rule() string {
-	return "federated stream (queries and mutations) with repeated objects in lists; per case the per-service request logs are compared with the plan and with the raw (pre-scrub) result captured through WithExecutor: (a) every included root response key occurs in exactly one root request, mutation resolvers ran once per requested mutation field; (b) no two plan steps share (service, insertion point, query); (c) for every (service, follow-up query) the multiset of join ids sent equals the multiset of ids of the parent objects found at the steps' insertion paths; (d) when no configured priority applies and every field of the operation is offered by the service answering its only root location, exactly one request is made; non-trivial = at least 2 requests or a mutation; distinct = distinct (federation, query)"
+	return "L2.findpoints: 30 generated cases per case (a target path through a small schema, a query selecting along it with aliases, inline/named fragments and split duplicate keys, a reply that mostly conforms and sometimes does not, an empty or non-empty starting branch) through executorFindInsertionPoints and Fp.findPts: same realised paths or both an error; federated stream (queries and mutations) with repeated objects in lists; per case the per-service request logs are compared with the plan and with the raw (pre-scrub) result captured through WithExecutor: (a) every included root response key occurs in exactly one root request, mutation resolvers ran once per requested mutation field; (b) no two plan steps share (service, insertion point, query); (c) for every (service, follow-up query) the multiset of join ids sent equals the multiset of ids of the parent objects found at the steps' insertion paths; (d) when no configured priority applies and every field of the operation is offered by the service answering its only root location, exactly one request is made; non-trivial = at least 2 requests or a mutation; distinct = distinct (federation, query)"
 }
 
 // CapExec wraps the real executor and keeps a deep copy of its raw result (before the id scrubber runs).
 type CapExec struct {
 	Inner gateway.Executor
+	mu    sync.Mutex
 	Raw   map[string]interface{}
 }
 
@@ -41,7 +43,9 @@ func (c *CapExec) Execute(ctx *gateway.ExecutionContext) (map[string]interface{}
 	b, _ := json.Marshal(d)
 	var cp map[string]interface{}
 	json.Unmarshal(b, &cp)
+	c.mu.Lock()
 	c.Raw = cp
+	c.mu.Unlock()
 	return d, e
 }
 
@@ -81,6 +85,17 @@ func (c13) Run(c *Ctx, i int) CaseResult {
 	var in FedInput
 	feats := map[string]bool{}
 	id := ""
+	// L2: executorFindInsertionPoints against Fp.findPts (30 generated cases per case)
+	findFeat := map[string]bool{}
+	for k := 0; k < 30; k++ {
+		fails, fs := FindCorr(c, c.Rand(i*1000+k+99000000))
+		for _, f := range fs {
+			findFeat[f] = true
+		}
+		if len(fails) > 0 {
+			return CaseResult{ID: fmt.Sprintf("gen:%d", i), Nontrivial: true, Fails: fails}
+		}
+	}
 	if i < len(FedCorpus) {
 		in, id = FedCorpus[i].In, "corpus:"+FedCorpus[i].ID
 	} else {
@@ -106,6 +121,9 @@ func (c13) Run(c *Ctx, i int) CaseResult {
 		}
 		in.OddIDs = false
 		id = fmt.Sprintf("gen:%d", i)
+	}
+	for f := range findFeat {
+		feats[f] = true
 	}
 	res := CaseResult{ID: id, Key: fmt.Sprint(in.Spec.SDLs, in.Spec.Priorities, in.Query, in.ListLen)}
 	fails := c13Check(c, in, &res, feats, i >= len(FedCorpus))
